@@ -45,6 +45,27 @@ class GlobalsWrapper():
         else:
             raise NameError(name)
 
+class NamesFallback(dict):
+    ''' Used as ``__builtins__`` of the evaluated code on interpreters whose bytecode
+        is not understood by :py:meth:`EvalNode._patch_access_to_globals`: any name which is
+        neither defined by the code itself nor provided as an eval symbol (those live in the
+        globals dict) is looked up here - first in the config, then among the real builtins.
+        The real builtins are also stored in the underlying dict to keep the lookups done internally by
+        the interpreter (e.g. ``__import__``, ``__build_class__``) working.
+    '''
+    def __init__(self, wrapper):
+        super().__init__(__builtins__)
+        self.wrapper = wrapper
+
+    def __getitem__(self, name):
+        wrapper = self.wrapper
+        if name in wrapper.ecfg._cfgobj:
+            with wrapper.ctx.require_all_safe(wrapper.node, wrapper.path):
+                return wrapper.ecfg[name]
+
+        return super().__getitem__(name)
+
+
 class EvalNode(ConfigScalar(str)):
     ''' Implements ``!eval`` tag.
 
@@ -116,8 +137,14 @@ class EvalNode(ConfigScalar(str)):
         try:
             exec_code = compile(exec_lines, filename, 'exec')
             eval_code = compile(eval_line, filename, 'eval')
-            exec_code_patched, _ = EvalNode._patch_access_to_globals(exec_code)
-            eval_code_patched, _ = EvalNode._patch_access_to_globals(eval_code)
+            if python_is_at_least(3, 11):
+                # the bytecode rewriting below does not handle inline caches, shifted operands, exception tables
+                # and extended arguments of the newer interpreters, redirect lookups of unknown names through builtins instead
+                gbls['__builtins__'] = NamesFallback(gbls[EvalNode._globals_wrapper_name])
+                exec_code_patched, eval_code_patched = exec_code, eval_code
+            else:
+                exec_code_patched, _ = EvalNode._patch_access_to_globals(exec_code)
+                eval_code_patched, _ = EvalNode._patch_access_to_globals(eval_code)
             exec(exec_code_patched, gbls)
             ret = eval(eval_code_patched, gbls)
         except EvalError as e:
